@@ -1537,10 +1537,16 @@ func runC13(res *hx.Result, rng *hx.Rng, tier string, outdir string) {
 		"when the sequence says so; non-trivial = at least 2 subscribers and 2 emissions; emissions placed inside the mailbox " +
 		"goroutine's processing of a registerEvent / unregisterEvent (scripts, one request in three of the sequential schedules, up " +
 		"to two per interleaved schedule); raw registerEvent / unregisterEvent sequences with colliding ids, also next to " +
-		"connections whose writes fail (EPIPE, ECONNRESET, io.EOF), that were closed, that fail once or are slow"
+		"connections whose writes fail (EPIPE, ECONNRESET, io.EOF), that were closed, that fail once or are slow; bursts of events of " +
+		"4 bytes to 300000 bytes (around and above 64 KB) to 5 subscribers on 3 connections of a server on unix:// and tcp:// " +
+		"while every connection has calls in flight; non-trivial = at least one event above 64 KB followed by another frame"
 	nSeq, nInter := 200, 150
 	if tier == "thorough" {
 		nSeq, nInter = 3000, 5000
+	}
+	if os.Getenv("QV_C13_REAL") == "only" { // the real-transport family alone (c13real.go)
+		c13runReal(res, hx.NewRng(res.Seed*0x9e3779b97f4a7c15+613), tier)
+		return
 	}
 	if strings.HasPrefix(os.Getenv("QV_C13_FWD"), "only:") { // campaign of the client-side family alone (c13fwd.go)
 		c13runFwd(res, rng, tier, outdir)
@@ -1716,4 +1722,7 @@ func runC13(res *hx.Result, rng *hx.Rng, tier string, outdir string) {
 	lap("exhaustive, flush")
 	c13runRaw(res, rng, tier, outdir, cfg)
 	lap("raw family")
+	// bursts of events of every size over unix:// and tcp:// (c13real.go).  Its own random stream.
+	c13runReal(res, hx.NewRng(res.Seed*0x9e3779b97f4a7c15+613), tier)
+	lap("real transports")
 }
